@@ -199,10 +199,15 @@ def build(spec, initialize=True):
     g = BasicDSG()
     for nd in nodes:
         g.add_node(nd)
-    g.add_edges([(nodes[a], nodes[b]) for a, b in spec['derives']])
+    # order of construction: derivation edges first (default) or selection choices first - the order in which edges
+    # enter the multigraph is the order in which the library's traversals see them
+    if not spec.get('choices_first'):
+        g.add_edges([(nodes[a], nodes[b]) for a, b in spec['derives']])
     cn = []
     for ci, c in enumerate(spec['sel']):
         cn.append(g.add_selection_choice('C%02d' % ci, nodes[c['o']], [nodes[k] for k in c['opts']]))
+    if spec.get('choices_first'):
+        g.add_edges([(nodes[a], nodes[b]) for a, b in spec['derives']])
     for a, b in spec.get('incompat', []):
         g.add_incompatibility_constraint([nodes[a], nodes[b]])
     conn_nodes = []
